@@ -38,8 +38,16 @@ func implC20(a []string, emitz bool) string {
 	defer func() { time.Local = saved }()
 	w := newWorkspace()
 	defer w.cleanup()
-	w.writeCSVBook("", bookSpec{Name: "Book", Sheets: []sheetSpec{{Name: "TimeConf", Rows: [][]string{
-		{"ID", "At"}, {"map<uint32, Item>", "datetime"}, {"id", "at"}, {"1", text}}}}})
+	if (len(text)+len(machine))%2 == 0 {
+		w.writeCSVBook("", bookSpec{Name: "Book", Sheets: []sheetSpec{{Name: "TimeConf", Rows: [][]string{
+			{"ID", "At"}, {"map<uint32, Item>", "datetime"}, {"id", "at"}, {"1", text}}}}})
+	} else {
+		// the cell sits in a workbook merged into the sheet (Merger): same location, same reading
+		w.writeCSVBook("", bookSpec{Name: "Book", Sheets: []sheetSpec{{Name: "TimeConf", Meta: map[string]string{"Merger": "Extra*.csv"}, Rows: [][]string{
+			{"ID", "At"}, {"map<uint32, Item>", "datetime"}, {"id", "at"}, {"2", "2001-02-03 04:05:06"}}}}})
+		w.writeCSVBook("", bookSpec{Name: "Extra1", NoMeta: true, Sheets: []sheetSpec{{Name: "TimeConf", Rows: [][]string{
+			{"ID", "At"}, {"t", "t"}, {"id", "at"}, {"1", text}}}}})
+	}
 	ro := runOpts{LocationName: locName, LocationRaw: true, EmitTimezones: emitz}
 	if err := w.genProto(ro); err != nil {
 		return "protoerr"
